@@ -170,7 +170,8 @@ def machine_vars_part(C, store_kind):
                             I.eq(kw["value"], value), I.eq(kw["prev_value"], prev)))
     C.helpers["posted_change"] = posted_change
     C.trace_helpers = set(getattr(C, "trace_helpers", ())) | {"disk_entry_is", "disk_lacks", "n_posts", "posted_change",
-                                                              "disk_matches_store", "n_saves", "reloaded", "expiry_kept"}
+                                                              "disk_matches_store", "n_saves", "reloaded", "expiry_kept",
+                                                              "reload_announced"}
     ENT = "self.machine_vars[name]"
     FLAG = "self.machine.config['mpf']['save_machine_vars_to_disk']"
     C.fn("MachineVariables.configure_machine_var", params=dict(name=Str, persist=Bool, expire_secs=Opt(Int)),
@@ -362,6 +363,24 @@ def bounded_part(C, _dget, last_saved, ENTRY_FIELDS):
         return VBool(z3.And(*out) if out else z3.BoolVal(True))
     C.helpers["reloaded"] = reloaded
 
+    def reload_announced(I):
+        """every restored variable whose value is not None is announced: machine_var_<name> is posted with that value
+        (boot starts from an empty store, so the previous value is None and every such value is a change)"""
+        this = I.frames[0].env["self"].ref
+        store = I.container(I.force(I.read_field(this, "machine_vars")).ref)
+        posts = events_named(I, "post")
+        out = []
+        for k, ent in store.entries:
+            val = _dget(I, I.force(ent), "value")
+            if val is None:
+                return VBool(False)
+            kt = z3.StringVal(k) if isinstance(k, str) else I.force(k).t
+            want = VStr(z3.Concat(z3.StringVal("machine_var_"), kt))
+            hit = [z3.And(I.eq(e.args["event"], want), I.eq(e.args["kwargs"].get("value", NONE), val)) for e in posts]
+            out.append(z3.Or(I.eq(val, NONE), *hit))
+        return VBool(z3.And(*out) if out else z3.BoolVal(True))
+    C.helpers["reload_announced"] = reload_announced
+
     # ---- variables declared in the machine config (machine_vars: section) at boot
     C.cls("ConfigValidatorI", fields={})
     C.ext("ConfigValidatorI.validate_config", model=lambda I, env, a, k: a[1],
@@ -467,6 +486,9 @@ def bounded_part(C, _dget, last_saved, ENTRY_FIELDS):
                     "'machine_vars' not in self.machine.config")],
          ensures=[("P3: persisted variables reload with equal values unless their expiry time has passed; expired "
                    "or malformed entries are not restored", "reloaded(current_time)"),
+                  ("P3c: every restored value is announced like any other change (machine_var_<name> with the value): a "
+                   "template or setting that subscribed before the load - the light controller's brightness, for one - must "
+                   "not keep the value from before it", "reload_announced()"),
                   ("P3b: a reloaded variable keeps the expiry time it was stored with (otherwise the next write stores it "
                    "without one and it survives every later boot)", "expiry_kept()")],
          modifies=["self.machine_vars.**", "self.machine_var_data_manager"], raises={}, bounded=B)
